@@ -9,7 +9,10 @@
 (*   enforce : enforce_deadlines of the policy                                *)
 (*   grid    : time discretisation (1 unless TetriSched)                      *)
 (*   horizon : last start time the enumeration / the pool projection looks at  *)
-(*   workers : sequence of capacities (one resource name)                     *)
+(*   workers : sequence (one per worker) of capacity vectors: one capacity per *)
+(*             resource type (name); a type the worker does not have is 0.    *)
+(*             How a capacity is split over resource ids ({GPU:g0:1,GPU:g1:1}) *)
+(*             is not part of the instance: requests name no id.               *)
 (*   step    : 1, or i > 1 for the i-th invocation of one scheduler object in  *)
 (*             a multi-invocation scenario (the earlier answers were applied   *)
 (*             to the tasks / workers the way the Simulator does; the          *)
@@ -18,7 +21,8 @@
 (*   tasks   : sequence in topological order (parents have smaller indices) of *)
 (*     [state   : "REL" | "VIRT" | "RUN" | "SCHED" | "DONE" | "CANC",          *)
 (*      release, deadline,                                                    *)
-(*      strats  : sequence of [dem, rt, bs]; bs > 1: the strategy runs a      *)
+(*      strats  : sequence of [dem, rt, bs]; dem: demand vector (one quantity *)
+(*                per resource type); bs > 1: the strategy runs a             *)
 (*                batch of bs tasks of the profile together (one demand, one  *)
 (*                runtime, same worker and start for all members),            *)
 (*      prof    : 0, or the number of the work profile shared with others,     *)
@@ -32,9 +36,11 @@
 (*                SCHEDULED and re-planned by the policy),                    *)
 (*      must    : the policy's model has to place it (SCHEDULED, no retract),  *)
 (*      dlenf   : the policy's model carries a deadline constraint for it]     *)
-(* decisions d : sequence, one per task, of [kind, w, s, k];                   *)
+(* decisions d : sequence, one per task, of [kind, w, s, k, c];                *)
 (*      kind "place" (worker w, start s, strategy k), "unplaced", "cancel",    *)
-(*      "none" (no Placement for the task).                                    *)
+(*      "none" (no Placement for the task); c: the answer (also) contains a    *)
+(*      cancellation of the task (TRUE for kind "cancel"; TRUE with kind       *)
+(*      "place" when one answer both cancels and places the task).             *)
 (* call record r = [id, src ("returned" | "pool" | "e2e"), inst, dec].         *)
 (*                                                                            *)
 (* Statement level (what C11 / C12 say, decides VIOLATIONs):                   *)
@@ -60,6 +66,7 @@ Tup(f) == f \o <<>>
 SetMin(S) == CHOOSE m \in S : \A x \in S : m <= x
 SetMax(S) == CHOOSE m \in S : \A x \in S : x <= m
 Max2(a, b) == IF a >= b THEN a ELSE b
+Min2(a, b) == IF a <= b THEN a ELSE b
 RECURSIVE SumOver(_, _)
 SumOver(S, f) == IF S = {} THEN 0 ELSE LET x == CHOOSE x \in S : TRUE IN f[x] + SumOver(S \ {x}, f)
 
@@ -86,7 +93,8 @@ TaskIds(I)    == 1..Len(I.tasks)
 Parents(I, t) == {I.tasks[t].parents[i] : i \in 1..Len(I.tasks[t].parents)}
 StratIds(I, t) == 1..Len(I.tasks[t].strats)
 Rt(I, t, k)   == I.tasks[t].strats[k].rt
-Dem(I, t, k)  == I.tasks[t].strats[k].dem
+Dem(I, t, k)  == I.tasks[t].strats[k].dem          \* a vector: one quantity per resource type
+ResIds(I)     == 1..Len(I.workers[1])
 Bs(I, t, k)   == I.tasks[t].strats[k].bs
 FastestRt(I, t) == SetMin({Rt(I, t, k) : k \in StratIds(I, t)})
 SlowestRt(I, t) == SetMax({Rt(I, t, k) : k \in StratIds(I, t)})
@@ -96,20 +104,25 @@ Ancestors(I, t) == Parents(I, t) \cup UNION {Ancestors(I, p) : p \in Parents(I, 
 \* Graph.are_dependent on the shapes used here (no skip edges)
 Dependent(I, u, v) == u \in Ancestors(I, v) \/ v \in Ancestors(I, u)
 
-None       == [kind |-> "none", w |-> 0, s |-> 0, k |-> 0]
-Unplaced   == [kind |-> "unplaced", w |-> 0, s |-> 0, k |-> 0]
-Place(w, s, k) == [kind |-> "place", w |-> w, s |-> s, k |-> k]
+None       == [kind |-> "none", w |-> 0, s |-> 0, k |-> 0, c |-> FALSE]
+Unplaced   == [kind |-> "unplaced", w |-> 0, s |-> 0, k |-> 0, c |-> FALSE]
+Place(w, s, k) == [kind |-> "place", w |-> w, s |-> s, k |-> k, c |-> FALSE]
 
 Dom(d)        == 1..Len(d)            \* d may be a prefix (enumeration)
 Placed(d, t)  == d[t].kind = "place"
 Decided(d, t) == d[t].kind # "none"
+Cancelled(d, t) == d[t].kind = "cancel" \/ d[t].c
 
 WellFormedInst(I) ==
     /\ Len(I.tasks) >= 1 /\ Len(I.workers) >= 1 /\ I.grid >= 1
+    /\ Len(I.workers[1]) >= 1
+    /\ \A w \in 1..Len(I.workers) : Len(I.workers[w]) = Len(I.workers[1]) /\ \A r \in ResIds(I) : I.workers[w][r] >= 0
     /\ \A t \in TaskIds(I) :
           /\ I.tasks[t].state \in {"REL", "VIRT", "RUN", "SCHED", "DONE", "CANC"}
           /\ Len(I.tasks[t].strats) >= 1
-          /\ \A k \in StratIds(I, t) : Rt(I, t, k) >= 1 /\ Dem(I, t, k) >= 0 /\ Bs(I, t, k) >= 1
+          /\ \A k \in StratIds(I, t) :
+                /\ Rt(I, t, k) >= 1 /\ Bs(I, t, k) >= 1
+                /\ Len(Dem(I, t, k)) = Len(I.workers[1]) /\ \A r \in ResIds(I) : Dem(I, t, k)[r] >= 0
           /\ I.tasks[t].prof >= 0
           /\ \A p \in Parents(I, t) : p \in 1..(t - 1)
           /\ I.tasks[t].state \in {"RUN", "SCHED"} =>
@@ -120,6 +133,7 @@ WellFormedDec(I, d) ==
     /\ Len(d) = Len(I.tasks)
     /\ \A t \in Dom(d) :
           /\ d[t].kind \in {"place", "unplaced", "cancel", "none"}
+          /\ d[t].c \in BOOLEAN /\ (d[t].kind = "cancel" => d[t].c) /\ (d[t].c => d[t].kind \in {"cancel", "place"})
           /\ Placed(d, t) => d[t].w \in 1..Len(I.workers) /\ d[t].k \in StratIds(I, t)
 
 -----------------------------------------------------------------------------
@@ -169,10 +183,12 @@ DeadlineOK(I, d) ==
 
 Hopeless(I, d) == {t \in Dom(d) : (I.tasks[t].offered \/ Decided(d, t)) /\ ~Admit(I.now, I, t)}
 
-HopelessCancelled(I, d) == \A t \in Hopeless(I, d) : d[t].kind = "cancel"
+HopelessCancelled(I, d) == \A t \in Hopeless(I, d) : Cancelled(d, t)
 \* ... and only those: a task that can still finish with its fastest strategy starting now
 \* (deadline = now + runtime included) is not dropped by the admission test
-OnlyHopelessCancelled(I, d) == \A t \in Dom(d) : d[t].kind = "cancel" => ~Admit(I.now, I, t)
+OnlyHopelessCancelled(I, d) == \A t \in Dom(d) : Cancelled(d, t) => ~Admit(I.now, I, t)
+\* "never placed: it is answered with a cancellation" - one answer never does both for a task
+NotCancelledAndPlaced(I, d) == \A t \in Dom(d) : ~(Placed(d, t) /\ d[t].c)
 HopelessNotPlaced(I, d) == \A t \in Hopeless(I, d) : ~Placed(d, t)
 
 HopelessHandled(I, d) ==
@@ -190,10 +206,15 @@ CompletedOK(I) == \A t \in TaskIds(I) : I.tasks[t].state = "DONE" => I.tasks[t].
 
 -----------------------------------------------------------------------------
 (* the decision space of a policy as coded (convention level)                *)
-Compatible(I, t, w, k) == Dem(I, t, k) <= I.workers[w]
+Compatible(I, t, w, k) == \A r \in ResIds(I) : Dem(I, t, k)[r] <= I.workers[w][r]
+\* some strategy of the task fits some worker of the cluster at all (an empty one)
+FitsSomewhere(I, t) == \E w \in 1..Len(I.workers) : \E k \in StratIds(I, t) : Compatible(I, t, w, k)
+MaxRt(I) == SetMax({SlowestRt(I, t) : t \in TaskIds(I)})
 
+\* the points now + i * grid up to `last`
+GridPoints(I, last) == {I.now + i * I.grid : i \in 0..((last - I.now) \div I.grid)}
 StartDom(I, t) ==
-    {s \in Max2(I.now + Conv(I.policy).startLB, I.tasks[t].release)..I.horizon : (s - I.now) % I.grid = 0}
+    {s \in GridPoints(I, I.horizon) : s >= Max2(I.now + Conv(I.policy).startLB, I.tasks[t].release)}
 
 Options(I, t) ==
     IF ~I.tasks[t].dec THEN {None}
@@ -214,7 +235,7 @@ OStrat(I, d, t) == IF Placed(d, t) THEN d[t].k ELSE I.tasks[t].cur.k
 ORt(I, d, t) ==
     IF Placed(d, t) THEN (IF I.policy = "Z3" THEN SlowestRt(I, t) ELSE Rt(I, t, d[t].k))
     ELSE IF Conv(I.policy).runRt = "full" THEN Rt(I, t, I.tasks[t].cur.k) ELSE I.tasks[t].fin - I.now
-OD(I, d, t) == Dem(I, t, OStrat(I, d, t))
+OD(I, d, t, r) == Dem(I, t, OStrat(I, d, t))[r]
 
 \* batching: tasks of one work profile placed with the same strategy of batch size > 1 on the
 \* same worker at the same time are one batch: one demand, one runtime
@@ -248,22 +269,26 @@ CapPairwise(I, d) ==
     LET O == OccR(I, d)
     IN  \A u \in O :
            LET S == {v \in O \ {u} : OW(I, d, v) = OW(I, d, u) /\ ~Dependent(I, u, v) /\ Conflict(I, d, u, v)}
-           IN  OD(I, d, u) + SumOver(S, [v \in S |-> OD(I, d, v)]) <= I.workers[OW(I, d, u)]
+           IN  \A r \in ResIds(I) :
+                  OD(I, d, u, r) + SumOver(S, [v \in S |-> OD(I, d, v, r)]) <= I.workers[OW(I, d, u)][r]
 
-\* TetriSched: per worker and slot of the grid, start <= slot < start + rt
+\* TetriSched: per worker and slot of the grid, start <= slot < start + rt.  The load of a worker only
+\* grows at a start point of an occupancy (a grid point: placed tasks start on the grid, RUNNING ones
+\* count from now), so the slots that have to be looked at are the start points.
 CapSlots(I, d) ==
     LET O == OccR(I, d)
-        slots == {s \in I.now..(I.horizon + 8) : (s - I.now) % I.grid = 0}
+        slots == {OS(I, d, u) : u \in O}
     IN  \A w \in 1..Len(I.workers) : \A tau \in slots :
            LET S == {u \in O : OW(I, d, u) = w /\ OS(I, d, u) <= tau /\ tau < OS(I, d, u) + ORt(I, d, u)}
-           IN  SumOver(S, [u \in S |-> OD(I, d, u)]) <= I.workers[w]
+           IN  \A r \in ResIds(I) : SumOver(S, [u \in S |-> OD(I, d, u, r)]) <= I.workers[w][r]
 
 \* Z3 sees the resources held by RUNNING tasks as unavailable for good
 CapZ3(I, d) ==
-    LET held == [w \in 1..Len(I.workers) |->
+    LET held == [w \in 1..Len(I.workers) |-> [r \in ResIds(I) |->
                     LET R == {t \in TaskIds(I) : I.tasks[t].state = "RUN" /\ I.tasks[t].cur.w = w}
-                    IN  SumOver(R, [t \in R |-> Dem(I, t, I.tasks[t].cur.k)])]
-        I2 == [I EXCEPT !.workers = Tup([w \in 1..Len(I.workers) |-> I.workers[w] - held[w]])]
+                    IN  SumOver(R, [t \in R |-> Dem(I, t, I.tasks[t].cur.k)[r]])]]
+        I2 == [I EXCEPT !.workers = Tup([w \in 1..Len(I.workers) |->
+                                            Tup([r \in ResIds(I) |-> Max2(0, I.workers[w][r] - held[w][r])])])]
     IN  CapPairwise(I2, d)
 
 CapacityOK(I, d) ==
@@ -323,8 +348,12 @@ PlansViolatingOnly(rule, I) ==
 
 -----------------------------------------------------------------------------
 (* vacuity counters (TLC registers, single worker) *)
+\* (child, parent) pairs both decided by this invocation
+BothDecided(I, d) == {<<c, p>> \in Dom(d) \X Dom(d) : Decided(d, c) /\ p \in Parents(I, c) /\ Decided(d, p)}
+\* offered at an earlier invocation already (released before this one) and still waiting
+Waited(I, t) == I.tasks[t].state = "REL" /\ I.tasks[t].release >= 0 /\ I.tasks[t].release < I.now
 Bump(r, cond) == IF cond THEN TLCSet(r, TLCGet(r) + 1) ELSE TRUE
-NStats == 21
+NStats == 37
 StatsLine == PrintT("@@stats " \o ToString([r \in 1..NStats |-> TLCGet(r)]))
 
 Stats(I, d) ==
@@ -352,13 +381,35 @@ Stats(I, d) ==
     /\ Bump(19, I.step > 1 /\ Hopeless(I, d) # {})
     /\ Bump(20, I.step > 1 /\ \E t \in Dom(d) : (I.tasks[t].offered \/ Decided(d, t)) /\ I.tasks[t].deadline = I.now + FastestRt(I, t))
     /\ Bump(21, I.step > 1 /\ \E t \in Dom(d) : Placed(d, t) /\ d[t].s + Rt(I, t, d[t].k) = I.tasks[t].deadline)
+    \* co-offered predecessors that cannot be placed (no worker fits them / hopeless), what became of their children
+    /\ Bump(22, \E e \in BothDecided(I, d) : ~FitsSomewhere(I, e[2]))
+    /\ Bump(23, \E e \in BothDecided(I, d) : I.enforce /\ ~Admit(I.now, I, e[2]))
+    /\ Bump(24, \E e \in BothDecided(I, d) : ~Placed(d, e[2]) /\ FitsSomewhere(I, e[1]))
+    /\ Bump(25, \E e \in BothDecided(I, d) : ~Placed(d, e[2]) /\ ~Placed(d, e[1]))
+    /\ Bump(26, ~ParentsPlaced(I, d))
+    /\ Bump(27, \E e \in BothDecided(I, d) : \E f \in BothDecided(I, d) :
+                    e[1] = f[1] /\ Placed(d, e[2]) /\ ~Placed(d, f[2]))
+    /\ Bump(28, \E t \in Dom(d) : I.tasks[t].state = "RUN" /\ ~Decided(d, t)
+                                   /\ \A u \in Dom(d) : Decided(d, u) => ~Dependent(I, t, u))
+    /\ Bump(29, Len(I.workers[1]) > 1)
+    \* requests that waited over several invocations (Clockwork queues, greedy policies)
+    /\ Bump(30, I.step > 1 /\ \E t \in Dom(d) : Placed(d, t) /\ Waited(I, t))
+    /\ Bump(31, I.step > 1 /\ \E t \in Dom(d) : Cancelled(d, t) /\ Waited(I, t))
+    /\ Bump(32, I.step > 1 /\ \E t \in Dom(d) : Placed(d, t) /\ Waited(I, t) /\ Bs(I, t, d[t].k) > 1)
+    /\ Bump(33, \E t \in Dom(d) : (I.tasks[t].offered \/ Decided(d, t)) /\ Len(I.tasks[t].strats) >= 3)
+    /\ Bump(34, ~NotCancelledAndPlaced(I, d))
+    /\ Bump(35, I.step >= 3)
+    /\ Bump(36, I.step > 1 /\ \E t \in Dom(d) : Placed(d, t) /\ Rt(I, t, d[t].k) # FastestRt(I, t))
+    \* still admitted, but too late for its slowest strategy: the strategy matters
+    /\ Bump(37, \E t \in Dom(d) : (I.tasks[t].offered \/ Decided(d, t)) /\ Admit(I.now, I, t)
+                                   /\ I.tasks[t].deadline < I.now + SlowestRt(I, t))
 
 -----------------------------------------------------------------------------
 (* T: call records.  Every failing clause of every record is printed          *)
 (* ("@@ id clause"); the invariant itself always holds.                      *)
 Clauses == {"harness.wf",
             "C11.parents_placed", "C11.child_after_parent", "C11.child_after_running_parent",
-            "C12.plan_meets_deadline", "C12.hopeless_cancelled", "C12.hopeless_not_placed",
+            "C12.plan_meets_deadline", "C12.hopeless_cancelled", "C12.hopeless_not_placed", "C12.cancelled_and_placed",
             "C12.completed_by_deadline",
             "conv.child_after_parent", "conv.child_after_running_parent"}
 
@@ -374,6 +425,8 @@ Holds(c, r) ==
                 (I.enforce /\ I.policy \in CancelPolicies) => (HopelessCancelled(I, d) /\ OnlyHopelessCancelled(I, d))
           [] c = "C12.hopeless_not_placed" ->
                 (I.enforce /\ I.policy \in CancelPolicies \cup UnplacedPolicies) => HopelessNotPlaced(I, d)
+          [] c = "C12.cancelled_and_placed" ->
+                (I.enforce /\ I.policy \in CancelPolicies \cup UnplacedPolicies) => NotCancelledAndPlaced(I, d)
           [] c = "C12.completed_by_deadline" -> r.src = "e2e" => CompletedOK(I)
           [] c = "conv.child_after_parent" -> I.policy \in DagPolicies => ChildAfterParent(I, d, "conv")
           [] c = "conv.child_after_running_parent" -> I.policy \in DagPolicies => ConvAfterRunning(I, d)
